@@ -201,6 +201,12 @@ func (cl *Client) WriteLoop() {
 				if errors.Is(err, packets.ErrPacketTooLarge) {
 					cl.ops.hooks.OnPublishDropped(cl, *pk) // [MQTT-3.1.2-25] the packet is discarded
 				}
+
+				cl.Lock()
+				if len(cl.State.outbound) == 0 {
+					_ = cl.flushOutbuf() // the failed packet was the last in the queue, so nothing else will flush earlier buffered writes
+				}
+				cl.Unlock()
 			}
 			atomic.AddInt32(&cl.State.outboundQty, -1)
 		case <-cl.State.open.Done():
